@@ -456,7 +456,7 @@ where
         let mut current = self.get_root();
 
         loop {
-            let left_child = self.get_page(current)?.cell(0).left_child();
+            let left_child = self.get_page(current)?.child(0);
 
             let is_leaf = self.get_page(current)?.is_leaf();
             self.accessor_mut()?.release(current);
@@ -1226,8 +1226,7 @@ where
         let parent_next_sibling_first = if let Some(next_id) = parent_next {
             let parent_child_page = self.get_page_mut(next_id)?;
             parent_child_page
-                .cell(0)
-                .left_child()
+                .child(0)
                 .map(|id| BtreePagePosition::new(id, 0))
         } else {
             None
